@@ -523,6 +523,39 @@ func init() {
 		st.writeObj(at.(*types.Pointer).Elem(), ref, av)
 		return []Value{ex.toInterface(scalarV(at, ref), sig.Results().At(0).Type(), st)}
 	})
+	quicLocal := func(ex *Exec, st *State, c *ast.CallExpr, r *Value, a []Value) []Value {
+		sig := ex.info().TypeOf(c.Fun).(*types.Signature)
+		var at types.Type
+		for _, p := range ex.vc.pkgs {
+			if ip, ok := p.Imports["example.com/scion-time/net/udp"]; ok {
+				if o := ip.Types.Scope().Lookup("UDPAddr"); o != nil {
+					at = o.Type()
+				}
+			}
+		}
+		if at == nil {
+			unsupp("udp.UDPAddr not found")
+		}
+		av := freshValue("scionaddr", at)
+		st.assumeValid(av)
+		found := false
+		for p, h := range av.L {
+			if p == ".Host" {
+				st.assume(mkNot(mkEq(h, mkInt(sortRef, 0))))
+				found = true
+			}
+		}
+		if !found {
+			keys := []string{}
+			for p := range av.L {
+				keys = append(keys, p)
+			}
+			unsupp("udp.UDPAddr: no Host leaf among %v", keys)
+		}
+		return []Value{ex.toInterface(av, sig.Results().At(0).Type(), st)}
+	}
+	reg("(github.com/quic-go/quic-go.Connection).LocalAddr", "the project's QUIC listeners run over scion.serverConn, whose LocalAddr is the configured udp.UDPAddr value with a non-nil Host", quicLocal)
+	reg("(*github.com/quic-go/quic-go.Conn).LocalAddr", "the project's QUIC listeners run over scion.serverConn, whose LocalAddr is the configured udp.UDPAddr value with a non-nil Host", quicLocal)
 	reg("(github.com/scionproto/scion/pkg/addr.Host).Type", "returns the host address type (HostTypeNone, HostTypeIP, HostTypeSVC)", func(ex *Exec, st *State, c *ast.CallExpr, r *Value, a []Value) []Value {
 		sig := ex.info().TypeOf(c.Fun).(*types.Signature)
 		t := r.L[".t"]
